@@ -31,6 +31,9 @@ def load_contracts():
         for k, (n, depth) in tuning.SHARDS.items():
             if k in REGISTRY:
                 REGISTRY[k].shards, REGISTRY[k].shard_depth = n, depth
+        for k in getattr(tuning, "THOROUGH_ONLY", ()):
+            if k in REGISTRY:
+                REGISTRY[k].thorough_only = True
     except ModuleNotFoundError:
         pass
 
@@ -81,7 +84,7 @@ def _run_task(arg):
                     "wall": _t.time() - t0, "source_hash": hashlib.sha256(repr(rs).encode()).hexdigest()[:16], "used_contracts": [], "inlined": [], "queries": 0, "property": pid,
                     "render_state": rs}
         t = LemmaTask(c, cfg) if getattr(c, "is_lemma", False) else VerifyTask(c, cfg)
-        t.name = f"{pid}/{c.target.split(':')[1]}" if not getattr(c, "is_lemma", False) else f"{pid}/{c.target}"
+        t.name = f"{pid}/{key.split(':')[1]}" if not getattr(c, "is_lemma", False) else f"{pid}/{c.target}"
         orig_init = Explorer.__init__
 
         def patched(self, config=None):
@@ -95,6 +98,7 @@ def _run_task(arg):
         finally:
             Explorer.__init__ = orig_init
         d = dict(r.__dict__)
+        d["target"] = key  # the registry key (differs from the function's key for an aliased second contract)
         # results cross a process boundary: keep only plain data (models may hold solver objects)
         d["obligations"] = [{k: (_jsonable(v) if k in ("model", "detail", "path") else v) for k, v in o.items()} for o in d["obligations"]]
         return d
@@ -142,6 +146,9 @@ def run_xcheck(pid, tier, seed, jobs=None):
         return dict(pool.map(_run_xcheck, args, chunksize=1))
 
 
+SKIPPED_TIER: dict = {}
+
+
 def run_deductive(pid, tier, known, jobs=None, only=None):
     load_contracts()
     keys = [k for k, c in REGISTRY.items() if pid in props_of(c) and not c.assumed]
@@ -149,6 +156,11 @@ def run_deductive(pid, tier, known, jobs=None, only=None):
         keys = [k for k in keys if any(o in k for o in only)]
     if not keys:
         return []
+    # functions whose proof takes minutes are verified in the thorough tier only (contracts/tuning.py THOROUGH_ONLY);
+    # the quick tier reports them as not run and decides them by the bounded stand-in
+    skipped = [k for k in keys if tier != "thorough" and getattr(REGISTRY[k], "thorough_only", False) and not only]
+    keys = [k for k in keys if k not in skipped]
+    SKIPPED_TIER[pid] = skipped
     args = []
     for k in keys:
         n = int(getattr(REGISTRY[k], "shards", 1) or 1)
@@ -448,6 +460,7 @@ def check_property(pid, tier="quick", seed=0, manifest_level="proof", jobs=None,
         "functions_under_contract": functions,
         "undecided": undecided,
         "not_generated": not_generated,
+        "verified_in_thorough_tier_only": SKIPPED_TIER.get(pid, []),
         "known_findings_hit": known_hits,
         "samples": samples or [{"note": "no deductive obligations in this run"}],
         "explanation": explanation(pid, n_obl, n_dis, bounded, not_generated, undecided),
